@@ -244,6 +244,17 @@ func (n *Net) RoundTrip(req *http.Request) (*http.Response, error) {
 			return nil, err
 		}
 	}
+	var clErr error
+	if req.ContentLength > 0 && int64(len(body)) != req.ContentLength {
+		// net/http's transfer writer: a body shorter than the declared Content-Length never becomes
+		// a complete request; of a longer one exactly Content-Length bytes reach the server, which
+		// processes them, while the client gets an error
+		clErr = fmt.Errorf("http: ContentLength=%d with Body length %d", req.ContentLength, len(body))
+		if int64(len(body)) < req.ContentLength {
+			return nil, clErr
+		}
+		body = body[:req.ContentLength]
+	}
 	e := &Entry{Method: req.Method, Scheme: req.URL.Scheme, Host: req.URL.Host, Path: req.URL.Path, Query: req.URL.Query(), Header: req.Header.Clone(), Body: body}
 	n.classify(e)
 	if n.OnArrive != nil {
@@ -270,6 +281,11 @@ func (n *Net) RoundTrip(req *http.Request) (*http.Response, error) {
 	n.mu.Unlock()
 	if n.OnDone != nil {
 		n.OnDone(e)
+	}
+	if clErr != nil {
+		e.Status = def.Status
+		e.Note = "content-length-mismatch"
+		return nil, clErr
 	}
 	if ans != nil {
 		return n.finish(req, e, ans)
